@@ -100,6 +100,14 @@ binary(struct expr *expr, enum tokenkind op, struct expr *l, struct expr *r)
 	cast(expr);
 }
 
+static bool
+istrue(struct expr *expr)
+{
+	if (expr->type->prop & PROPFLOAT)
+		return expr->u.constant.f != 0;
+	return expr->u.constant.u != 0;
+}
+
 struct expr *
 eval(struct expr *expr)
 {
@@ -212,13 +220,19 @@ eval(struct expr *expr)
 			}
 			break;
 		case TLOR:
-			if (l->kind != EXPRCONST)
-				break;
-			return l->u.constant.u ? l : r;
 		case TLAND:
 			if (l->kind != EXPRCONST)
 				break;
-			return l->u.constant.u ? r : l;
+			c = l;
+			if (istrue(l) == (expr->op == TLAND)) {
+				/* the result is the truth value of the right operand */
+				if (r->kind != EXPRCONST)
+					break;
+				c = r;
+			}
+			expr->kind = EXPRCONST;
+			expr->u.constant.u = istrue(c);
+			break;
 		default:
 			if (l->kind != EXPRCONST || r->kind != EXPRCONST)
 				break;
